@@ -1990,3 +1990,131 @@ def default_button_table(ctx, rule):
                        f'<button>, <input type=text>, <input type=submit>, <button type=SUBMIT>; form c nests its first submit button in a '
                        f'<div>; x is outside any form): got {got}, expected {exp}. The default button of a form is its first input/button '
                        f'whose type is submit; the per-form memo must be keyed by the form object itself (bs4 tags compare by markup)')
+
+
+# ---- string algorithms that apply one of the package's regexes: followed with the analyser's own matcher (sa.rematch) ----------
+def rfc4647_extended(rng, tag):
+    """RFC 4647 3.3.2 extended filtering with the conventions of the property: case-insensitive, '*' matches any subtag sequence
+    including none, implicit wildcards do not skip singletons, the empty range matches only the explicitly empty language and
+    '*' only a non-empty one."""
+    rng, tag = rng.lower(), tag.lower()
+    if rng == '':
+        return tag == ''
+    if tag == '':
+        return False
+    rs, ts = rng.split('-'), tag.split('-')
+    if any(x == '' for x in rs):
+        return False                 # an empty subtag is no language range
+    if rs[0] != '*' and rs[0] != ts[0]:
+        return False
+    ri, ti = 1, 1
+    while ri < len(rs):
+        if rs[ri] == '*':
+            ri += 1
+            continue
+        if ti >= len(ts):
+            return False
+        if rs[ri] == ts[ti]:
+            ri += 1
+            ti += 1
+        elif len(ts[ti]) == 1:
+            return False
+        else:
+            ti += 1
+    return True
+
+
+def lang_filter_table(ctx, rule, deep=False):
+    """extended_language_filter against RFC 4647 extended filtering on every (range, tag) pair over small subtag alphabets
+    (bounded: ranges of up to three subtags over {en, us, x, *}, tags of up to three - thorough tier: four - subtags)."""
+    from ..tables import matcher_obj
+    fnq = 'css_match.CSSMatch.extended_language_filter'
+    mod, fn = ctx.src.func(fnq)
+    r_alpha, t_alpha = ('en', 'us', 'x', '*'), ('en', 'us', 'x', 'de')
+    ranges = [''] + ['-'.join(p) for n in (1, 2, 3) for p in itertools.product(r_alpha, repeat=n)] + ['EN-us', 'en-*-*-us', '*-*', 'en-*-*']
+    tags = [''] + ['-'.join(p) for n in ((1, 2, 3, 4) if deep else (1, 2, 3)) for p in itertools.product(t_alpha, repeat=n)] + ['En-US', 'en-x-us-de']
+    me = matcher_obj()
+    bad = None
+    n = 0
+    for r_, t_ in itertools.product(ranges, tags):
+        try:
+            got = bool(call_function(ctx, fnq, [r_, t_], {}, {'util.lower': strict_lower}, me, options={'regex_engine': True}))
+        except Raised as e:
+            got = f'raises {e.exc_name}'
+        except Unsupported as e:
+            raise AnalysisError(f'extended_language_filter: outside the evaluable fragment: {e}')
+        exp = rfc4647_extended(r_, t_)
+        n += 1
+        if got != exp and bad is None:
+            bad = (r_, t_, got, exp)
+    rule.instance({'function': 'extended_language_filter', 'pairs_compared_with_RFC_4647': n, 'ranges': len(ranges), 'tags': len(tags)},
+                  key='rfc4647')
+    rule.obligation(bad is None)
+    if bad is not None:
+        r_, t_, got, exp = bad
+        rule.violation('css_match.CSSMatch.extended_language_filter table', mod.where(fn),
+                       f'extended_language_filter({r_!r}, {t_!r}) is {got}; RFC 4647 extended filtering gives {exp} (first of {n} compared '
+                       f'pairs that differ): a wildcard subtag - also a trailing one - matches any sequence of subtags including none')
+
+
+def pattern_context_table(ctx, rule):
+    """get_pattern_context(pattern, index) for every offset 0..len(pattern) of short patterns with every line-break style:
+    line = 1 + number of line breaks before the offset, column = offset within that line + 1, the context reproduces the lines
+    and puts a caret under that column."""
+    fnq = 'util.get_pattern_context'
+    mod, fn = ctx.src.func(fnq)
+    patterns = ['ab', 'ab\ncd', 'ab\r\ncd\nef', 'a\rb', '\nab', 'ab\n', 'a\n\nb', '', 'x\r\n']
+    bad = None
+    n = 0
+    for pat in patterns:
+        # reference line table
+        lines, i, start = [], 0, 0
+        while i < len(pat):
+            if pat.startswith('\r\n', i):
+                lines.append((start, i, i + 2))
+                i += 2
+                start = i
+            elif pat[i] in '\r\n':
+                lines.append((start, i, i + 1))
+                i += 1
+                start = i
+            else:
+                i += 1
+        lines.append((start, len(pat), len(pat)))
+        for index in range(0, len(pat) + 1):
+            try:
+                res = call_function(ctx, fnq, [pat, index], {}, {}, None, options={'regex_engine': True})
+            except Raised as e:
+                res = f'raises {e.exc_name}'
+            except Unsupported as e:
+                raise AnalysisError(f'get_pattern_context: outside the evaluable fragment: {e}')
+            ln = next(k for k, (s0, e0, n0) in enumerate(lines) if s0 <= index < n0 or (k == len(lines) - 1))
+            exp_line, exp_col = ln + 1, index - lines[ln][0] + 1
+            ok = isinstance(res, (tuple, list)) and len(res) == 3 and res[1] == exp_line and res[2] == exp_col
+            why = ''
+            if ok:
+                ctx_lines = res[0].split('\n')
+                carets = [k for k, l in enumerate(ctx_lines) if l.strip() == '^']
+                texts = [l for k, l in enumerate(ctx_lines) if k not in carets]
+                want_texts = [pat[s0:e0] for s0, e0, n0 in lines]
+                if len(carets) != 1 or [t[4:] if len(lines) > 1 else t for t in texts] != want_texts:
+                    ok, why = False, 'the context does not reproduce the lines of the pattern with one caret'
+                else:
+                    under = ctx_lines[carets[0] - 1] if carets[0] > 0 else ''
+                    indent = 4 if len(lines) > 1 else 0
+                    caret_col = ctx_lines[carets[0]].index('^')
+                    # the caret stands under the reported column (or under the last character when the offset points into a line break)
+                    if caret_col not in (indent + exp_col - 1, indent + exp_col - 2) or (len(lines) > 1 and not under.startswith('--> ')) \
+                            or texts.index(under) != ln:
+                        ok, why = False, 'the caret is not under the reported column of the reported line'
+            n += 1
+            if not ok and bad is None:
+                bad = (pat, index, res, exp_line, exp_col, why)
+    rule.instance({'function': 'get_pattern_context', 'patterns': patterns, 'offsets_checked': n}, key='pattern-context')
+    rule.obligation(bad is None)
+    if bad is not None:
+        pat, index, res, exp_line, exp_col, why = bad
+        rule.violation('util.get_pattern_context table', mod.where(fn),
+                       f'get_pattern_context({pat!r}, {index}) returns {res!r}; expected line {exp_line}, column {exp_col} and a context with '
+                       f'the caret under that column{" (" + why + ")" if why else ""}: every offset 0..len(pattern), including the very end '
+                       f'of a multi-line pattern, lies on a line')
